@@ -16,7 +16,8 @@ package neutrino
 //
 // A scenario is: peer pool at the moment of Stop {empty, silent, responsive},
 // the activities in flight (Begin steps: GetBlock, GetCFilter, GetUtxo, rescan,
-// SendTransaction, block subscription, mid-sync) started through the public
+// SendTransaction, block subscription, mid-sync, Rescan.Update on a busy
+// rescan) started through the public
 // API, the moment of Stop (m = 0: immediately after the calls were issued,
 // m = 1: after every activity has parked at its blocking point, m = 2: parked
 // plus a seeded delay), and activities begun after Stop was called / returned.
@@ -67,6 +68,7 @@ const (
 	vsdKSendTx   = 5
 	vsdKSub      = 6
 	vsdKSync     = 7
+	vsdKUpdate   = 8 // Rescan.Update blocked on its busy rescan goroutine
 
 	vsdCPending = 0
 	vsdCShut    = 1
@@ -352,6 +354,11 @@ func (r *vsdRun) log(a vsdAct, err error, dump string) {
 			st = vsdCNone
 		}
 		r.obs.Calls = append(r.obs.Calls, vsdCall{K: a.K, M: a.M, St: st})
+		if a.K == vsdKUpdate {
+			// the activity has two callers: the Update call and the reader
+			// of its rescan's error channel
+			r.obs.Calls = append(r.obs.Calls, vsdCall{K: vsdKRescan, M: 1, St: vsdCPending})
+		}
 	case "Ret":
 		for i := range r.obs.Calls {
 			if r.obs.Calls[i].K == a.K {
@@ -488,6 +495,48 @@ func (r *vsdRun) addrOf(h int) (address.Address, []byte, error) {
 	return a, script, err
 }
 
+// newRescan builds (does not start) a rescan: m = 0 from the client's tip
+// (nothing to walk), m = 1 from height 5 (walks, fetching filters and blocks).
+// Returns the height of the watched address's block as well.
+func (r *vsdRun) newRescan(m int) (*Rescan, int, error) {
+	sh := r.known
+	if m == 1 {
+		sh = 5
+		if sh > r.known {
+			sh = r.known
+		}
+	}
+	wh := sh + 1
+	if wh > r.tip {
+		wh = r.tip
+	}
+	addr, _, err := r.addrOf(wh)
+	if err != nil {
+		return nil, 0, err
+	}
+	start := &headerfs.BlockStamp{Hash: r.chain.hash[sh], Height: int32(sh)}
+	r.quitRs = make(chan struct{})
+	rs := NewRescan(&RescanChainSource{r.svc},
+		StartBlock(start), WatchAddrs(addr), QuitChan(r.quitRs),
+		NotificationHandlers(rpcclient.NotificationHandlers{
+			OnFilteredBlockConnected: func(int32, *wire.BlockHeader, []*btcutil.Tx) {},
+		}))
+	return rs, wh, nil
+}
+
+// readRescan is the caller blocked on the error channel of Rescan.Start.
+func (r *vsdRun) readRescan(errChan <-chan error) {
+	k := vsdKRescan
+	err := <-errChan
+	if err == nil {
+		err = fmt.Errorf("rescan returned nil")
+		r.log(vsdAct{Op: "Ret", K: k, Cls: vsdCLegit}, err, "")
+		close(r.done[k])
+		return
+	}
+	r.ret(k, err, false)
+}
+
 // begin starts one activity through the public API.
 func (r *vsdRun) begin(a vsdAct) error {
 	k, m := a.K, a.M
@@ -535,38 +584,63 @@ func (r *vsdRun) begin(a vsdAct) error {
 			r.ret(k, err, false)
 		})
 	case vsdKRescan:
-		sh := r.known
-		if m == 1 {
-			sh = 5
-			if sh > r.known {
-				sh = r.known
-			}
-		}
-		wh := sh + 1
-		if wh > r.tip {
-			wh = r.tip
-		}
-		addr, _, err := r.addrOf(wh)
+		rs, _, err := r.newRescan(m)
 		if err != nil {
 			return err
 		}
-		start := &headerfs.BlockStamp{Hash: r.chain.hash[sh], Height: int32(sh)}
-		r.quitRs = make(chan struct{})
-		rs := NewRescan(&RescanChainSource{svc},
-			StartBlock(start), WatchAddrs(addr), QuitChan(r.quitRs),
-			NotificationHandlers(rpcclient.NotificationHandlers{
-				OnFilteredBlockConnected: func(int32, *wire.BlockHeader, []*btcutil.Tx) {},
-			}))
 		r.guard(k, func() {
-			errChan := rs.Start()
-			err := <-errChan
-			if err == nil {
-				err = fmt.Errorf("rescan returned nil")
-				r.log(vsdAct{Op: "Ret", K: k, Cls: vsdCLegit}, err, "")
-				close(r.done[k])
-				return
+			r.readRescan(rs.Start())
+		})
+	case vsdKUpdate:
+		// a rescan that walks the chain (as rescan variant 1: its first
+		// filter fetch is parked / unanswered / has no peer), and an Update
+		// call from a second goroutine while the rescan goroutine is busy.
+		// The caller's own quit channel (r.quitRs) stays open for ever: only
+		// the client can release the call.
+		rs, wh, err := r.newRescan(1)
+		if err != nil {
+			return err
+		}
+		if wh < r.tip {
+			wh++
+		}
+		addr2, _, err := r.addrOf(wh)
+		if err != nil {
+			return err
+		}
+		r.done[vsdKRescan] = make(chan struct{})
+		errChan := rs.Start()
+		r.guard(vsdKRescan, func() {
+			r.readRescan(errChan)
+		})
+		// (bounded wait, so that the call really finds the goroutine busy
+		// and is not taken by the poll at the top of its first iteration)
+		vsdWaitFor(400*time.Millisecond, func() bool {
+			select {
+			case <-r.done[vsdKRescan]:
+				return true
+			default:
 			}
-			r.ret(k, err, false)
+			switch vsdWhere(vsdDump()).Rs {
+			case "flock", "filter", "block":
+				return true
+			}
+			return false
+		})
+		r.guard(k, func() {
+			err := rs.Update(AddAddrs(addr2))
+			cls := vsdCLegit // nil: the rescan goroutine took the update
+			if err != nil {
+				if strings.Contains(err.Error(), "already done") {
+					// r.running closed: the rescan has ended (the text
+					// may or may not quote the rescan's own error)
+					cls = vsdCCancel
+				} else {
+					cls = vsdClassify(k, err, false)
+				}
+			}
+			r.log(vsdAct{Op: "Ret", K: k, Cls: cls}, err, "")
+			close(r.done[k])
 		})
 	case vsdKSendTx:
 		tx := wire.NewMsgTx(2)
